@@ -191,6 +191,14 @@ var EntrySummaryMenu = [][]string{
 	{"Started", "and went on"},
 	{"", "only on the next line"},
 	{"Süßes #日本語 #tag=\"v 1\" ✓", "  aligned – text"},
+	{"\ufffd in the \ufffd middle 100%s %d%%", "\ufffd 5%"},
+}
+
+// EntrySummaryMenuExtra: further summary shapes used by thorough tiers and the notation sweep
+// (U+FFFD is an ordinary, valid character).
+var EntrySummaryMenuExtra = [][]string{
+	{"replacement \ufffd character", "and \ufffd again"},
+	{"\ufffd"},
 }
 
 var DateMenu = []string{"2020-01-01", "1999/12/31", "2020-02-29"}
@@ -205,7 +213,7 @@ var ShouldMenu = []shouldOpt{{"", 0}, {"(8h!)", 480}, {"(-30m!)", -30}}
 var RecordSummaryMenu = [][]string{
 	nil,
 	{"Summary line"},
-	{"First #tag line", "1h looks like an entry, 2020-01-01 like a date"},
+	{"First #tag line 5% %v", "1h looks like an entry, 2020-01-01 like a date"},
 }
 
 // ---------------------------------------------------------------- index decoding
@@ -325,11 +333,12 @@ func FBShapes() []Doc {
 		pick(1, 1, 0, [2]int{9, 2}),
 		pick(0, 0, 1, [2]int{7, 4}, [2]int{10, 0}),
 		pick(1, 0, 0, [2]int{11, 1}, [2]int{2, 3}),
+		pick(0, 1, 2, [2]int{4, 5}, [2]int{0, 5}),
 	}
 	for i := range recs {
 		out = append(out, Doc{Records: []GRecord{recs[i]}})
 	}
-	pairs := [][2]int{{0, 3}, {3, 0}, {1, 5}, {5, 6}, {6, 7}, {4, 4}, {7, 2}, {2, 8}, {8, 9}, {9, 1}, {5, 5}, {6, 3}}
+	pairs := [][2]int{{0, 3}, {3, 0}, {1, 5}, {5, 6}, {6, 7}, {4, 4}, {7, 2}, {2, 8}, {8, 9}, {9, 1}, {5, 5}, {6, 3}, {10, 2}}
 	for _, p := range pairs {
 		out = append(out, Doc{Records: []GRecord{recs[p[0]], recs[p[1]]}})
 	}
